@@ -1297,7 +1297,7 @@ def run_corpus(ctx: Ctx):
             gr, ar = corner_group_rows(name, dtype), corner_alg_rows(name, dtype)
             if ctx.quick and dtype == "float32":      # quick tier: every other corner for the second dtype (the full grid runs in float64)
                 gr, ar = gr[::2], ar[1::2]
-            corpus_block(ctx, pend, name, dtype, gr, ar)
+            corpus_block(ctx, pend, name, dtype, gr, ar, grads=((None, "both") if ctx.quick else (None, "X", "a", "both")))
     for dtype in ("float64", "float32"):
         rows = corner_alg_rows("SO3", dtype)
         xs = U.to_dtype_exact([r[0] for r in rows], dtype)[1].tolist()
@@ -2245,10 +2245,13 @@ def run_large(ctx: Ctx):
                 plans.append((name, "float32", op, (n2,), (n2,)))
                 plans.append((name, "float64", op, (127, 129), (129,)))
     for i, (name, dtype, op, sx, sa) in enumerate(plans):
+        if ctx.quick and sx == (n2,):      # quick tier: 2^16+1 with the last item / last 2^14+1 items alone instead of three full splits
+            large_case(ctx, name, dtype, op, sx, sa, 1000 + i, pend, cuts=set(), tails=[n2 - 1, n2 - 1 - (1 << 14)])
+            continue
         large_case(ctx, name, dtype, op, sx, sa, 1000 + i, pend)
-    # class 34: sizes beyond 2^17.  quick: 2^17+37 for every entry point, the tails n % 2^k (k = 5, 6..17 -> 5 and 37 items) and the last item alone;
+    # class 34: sizes beyond 2^17.  quick: 2^18+37 for every entry point, the tails n % 2^k (k = 5, 6..17 -> 5 and 37 items) and the last item alone;
     # thorough: 2^18+1, 2^18+37, 2^20+1 with a full split at the 2^18 boundary and the tails
-    big = [((1 << 17) + 37, None, "float64")] if ctx.quick else [((1 << 18) + 1, 1 << 17, "float64"), ((1 << 18) + 37, 1 << 18, "float64"),
+    big = [((1 << 18) + 37, None, "float64")] if ctx.quick else [((1 << 18) + 1, 1 << 17, "float64"), ((1 << 18) + 37, 1 << 18, "float64"),
                                                                    ((1 << 20) + 1, 1 << 18, "float64"), ((1 << 18) + 37, 1 << 18, "float32")]
     j = 0
     for nb, fullcut, dtype in big:
@@ -2258,9 +2261,9 @@ def run_large(ctx: Ctx):
                     continue
                 if dtype == "float32" and op not in ("Adj", "Jinvp", "Retr"):
                     continue
-                if ctx.quick and ((op == "add" and name != "SO3") or (op == "add_" and name != "SE3") or (op == "algadd" and name != "Sim3")
-                                  or (op == "Retr" and name not in ("SE3", "Sim3")) or (op == "AdjT" and name not in ("SO3", "RxSO3"))):
-                    continue      # quick tier: Adj and Jinvp on every group; AdjT (= Adj of the inverse) and the spellings of + (shared kernels) on a subset
+                if ctx.quick and (op in ("add", "algadd") or (op == "add_" and name != "SE3") or (op == "Retr" and name != "Sim3")
+                                  or (op == "AdjT" and name != "RxSO3")):
+                    continue      # quick tier: Adj and Jinvp on every group; AdjT (= Adj of the inverse) and the spellings of + (shared kernels) on one group each
                 j += 1
                 tails = sorted({nb - nb % (1 << k) for k in (5, 10, 17, 18)} | {nb - 1})
                 large_case(ctx, name, dtype, op, (nb,), (nb,), 3000 + j, pend, cuts=({fullcut} if fullcut else set()), tails=tails)
